@@ -335,6 +335,43 @@ def static_obligations(cx, fe, info):
             cx.oblige(st, 'sampler.run/time_only_in_timeout_guard',
                       z3.BoolVal(len(uses) == 1 + in_guard and in_guard == 1),
                       kind='effect')
+    # the generator is drawn from only where the algorithm needs it, and the
+    # likelihood pool only maps the likelihood: neither a read-only accessor
+    # nor the size of the likelihood pool can change the random stream
+    DRAWS = {'__init__', 'posterior', 'sample_shell', 'add_bound', 'write',
+             'write_shell_update'}
+    touches, pool_slips = [], []
+    for cls in ast.walk(tree):
+        if not (isinstance(cls, ast.ClassDef) and cls.name == 'Sampler'):
+            continue
+        for fn in cls.body:
+            if not isinstance(fn, ast.FunctionDef):
+                continue
+            for n in ast.walk(fn):
+                if isinstance(n, ast.Attribute) and n.attr == 'rng' and \
+                        ast.unparse(n.value) == 'self' and \
+                        fn.name not in DRAWS:
+                    touches.append(fn.name)
+                if isinstance(n, ast.Attribute) and n.attr == 'pool_l' and \
+                        fn.name not in ('__init__', 'evaluate_likelihood'):
+                    pool_slips.append('{}: pool_l'.format(fn.name))
+                if isinstance(n, ast.keyword) and n.arg == 'pool' and \
+                        fn.name != '__init__' and \
+                        ast.unparse(n.value) != 'self.pool_s':
+                    pool_slips.append('{}: pool={}'.format(
+                        fn.name, ast.unparse(n.value)))
+            if fn.name in ('write', 'write_shell_update'):
+                # the writers only read the generator state
+                for n in ast.walk(fn):
+                    if isinstance(n, ast.Attribute) and isinstance(
+                            n.value, ast.Attribute) and n.value.attr == 'rng' \
+                            and n.attr != 'bit_generator':
+                        touches.append(fn.name + '.' + n.attr)
+    cx.oblige(st, 'sampler/generator_used_only_by_the_sampling_steps',
+              z3.BoolVal(not touches), kind='effect', detail=str(touches))
+    cx.oblige(st, 'sampler/likelihood_pool_only_maps_the_likelihood',
+              z3.BoolVal(not pool_slips), kind='effect',
+              detail=str(pool_slips))
     # every bound constructor call inside the package passes the shared rng
     for mod, src in fe.module_src.items():
         tree = ast.parse(src)
